@@ -26,7 +26,7 @@ RULE = ("string level: one case = one input string of one function; exhaustive w
         "random token soups, generated/mutated/unbalanced type strings, all prefixes of the fixed-offset tags; 9 naming rules x names and 8 variant rules x variant names. "
         "Non-trivial = the input contains a non-ASCII byte or a delimiter the function searches for. "
         "project level: one case = one source tree; generated exotic items, corpus files (plain, commandified, truncated, mutated), non-Rust text, "
-        "spellings of the project / output path (trailing and doubled slashes, ./, .. segments, relative / absolute) x top-level names starting with a non-ASCII character on the cache-using entry points (with --force, and twice without); string literals with escape-looking text after an escaped backslash beside real escapes (validator messages, rename values, event names; string level against the model and project level); naming configuration (default_field_case / default_parameter_case: 8 convention names + unknown values) x hostile identifiers by tauri.conf.json, library config and BuildSystem, also at string level (default:<value> rules against the model default_case_b); project size 19..100 types/commands/events (dag, cyclic, chain; 70-field structs; one or many files) in both modes; every project stream crossed with the optional output-producing settings (verbose, visualize_deps, include_private, exclude patterns; by flag and by tauri.conf.json) and the three entry points (CLI, generate_from_config, BuildSystem), each in its own process; a multi-byte character swept over every byte offset 0..80 of type texts, names, literals and paths; recursive and mutually recursive serde type graphs (every digraph on 3 named types with rotating root sets and containers, random 4-7 node graphs, wide/deep acyclic graphs, long rings) in both modes with exit status / signal / time limit as oracle, bounded deep nesting; isolation = base project with and without unparsable (or non-UTF-8) files. distinct = distinct inputs")
+        "degenerate trees (empty, only non-.rs files, only target/ and .git content, directories named *.rs, empty / comment-only / unparsable / non-UTF-8 files only, zero commands, events only) x every setting x CLI, analyze_project_with_verbose, generate_from_config and BuildSystem; spellings of the project / output path (trailing and doubled slashes, ./, .. segments, relative / absolute) x top-level names starting with a non-ASCII character on the cache-using entry points (with --force, and twice without); string literals with escape-looking text after an escaped backslash beside real escapes (validator messages, rename values, event names; string level against the model and project level); naming configuration (default_field_case / default_parameter_case: 8 convention names + unknown values) x hostile identifiers by tauri.conf.json, library config and BuildSystem, also at string level (default:<value> rules against the model default_case_b); project size 19..100 types/commands/events (dag, cyclic, chain; 70-field structs; one or many files) in both modes; every project stream crossed with the optional output-producing settings (verbose, visualize_deps, include_private, exclude patterns; by flag and by tauri.conf.json) and the three entry points (CLI, generate_from_config, BuildSystem), each in its own process; a multi-byte character swept over every byte offset 0..80 of type texts, names, literals and paths; recursive and mutually recursive serde type graphs (every digraph on 3 named types with rotating root sets and containers, random 4-7 node graphs, wide/deep acyclic graphs, long rings) in both modes with exit status / signal / time limit as oracle, bounded deep nesting; isolation = base project with and without unparsable (or non-UTF-8) files. distinct = distinct inputs")
 TRUSTED = [
     "python transcription of Rust's str::parse::<u64>/<f64> grammar (value of min/max only; not needed for panic-freedom)",
     "the token string handed to the attribute scanners is computed by the harness exactly as the code computes it (MetaList.tokens.to_string())",
@@ -379,7 +379,8 @@ def run_project(args):
     out = ""
     code = 0
     with vlib.Sandbox("c15") as sb:
-        sb.write_files(files, under="proj/src")
+        os.makedirs(sb.path("proj/src"), exist_ok=True)       # the tree may be empty
+        sb.write_files({k: (bytes.fromhex(v["hex"]) if isinstance(v, dict) else v) for k, v in files.items()}, under="proj/src")
         # how the project / output path is SPELLED (trailing or doubled slashes, ./, .. segments, relative / absolute);
         # the working directory of the CLI is proj/
         sp = st.get("spelling")
@@ -407,10 +408,13 @@ def run_project(args):
                     code, out = code2, out2
             detail.update({"exit": code, "output": out[-1500:] if code not in (0, 1) else out[-300:]})
             ok = code in (0, 1)
-        for entry in ("lib", "build"):
+        for entry in ("analyze", "lib", "build"):
             if entry not in entries:
                 continue
-            if entry == "lib":
+            if entry == "analyze":
+                case = {"entry": "analyze", "src_dir": src_arg if sp and not src_arg.startswith(("src", "./", "..")) else sb.path("proj/src"),
+                        "verbose": bool(st.get("verbose"))}
+            elif entry == "lib":
                 case = {"entry": "lib", "src_dir": sb.path("proj/src"), "out_dir": sb.path("out-lib"), "validation": mode,
                         "verbose": st.get("verbose"), "visualize_deps": st.get("visualize_deps"),
                         "include_private": st.get("include_private"), "exclude_patterns": st.get("exclude"),
@@ -546,6 +550,26 @@ def project_cases(rep, rng):
         for fc in ("camelCase", "PascalCase", "bogus", "SCREAMING-KEBAB-CASE"):
             add("naming-config-offset", src_files, ("zod", "none")[k % 2],
                 settings={"via": "conf", "field_case": fc, "param_case": fc, "entries": ["cli", "lib"]})
+    # DEGENERATE trees (nothing to count: zero candidate files, zero parsed files, zero commands / types / events)
+    # x every optional setting x every entry point (CLI, analysis with its verbose switch, library, BuildSystem)
+    cmd1 = "#[tauri::command]\npub fn only(x: u8) -> u8 { x }\n"
+    degenerate = {
+        "empty-tree": {}, "only-non-rs": {"README.md": "# x\n", "data.json": "{}", "main.rs.bak": cmd1},
+        "only-target-and-git": {"target/debug/gen.rs": cmd1, ".git/hooks/pre.rs": cmd1, "a/target/x.rs": cmd1},
+        "empty-dirs": {"a/b/.keep": "", "c/.keep": ""}, "dir-named-rs": {"mod.rs/.keep": "", "x.rs/y.txt": "t"},
+        "single-empty-rs": {"lib.rs": ""}, "whitespace-rs": {"lib.rs": "\n\n  \n"}, "comment-only": {"lib.rs": "// nothing\n/* here */\n"},
+        "only-unparsable": {"bad.rs": "fn (", "worse.rs": "\"open"}, "only-non-utf8": {"x.rs": {"hex": "fffe"}, "y.rs": {"hex": "c3"}},
+        "zero-commands": {"lib.rs": "pub fn plain() {}\n#[derive(serde::Serialize)]\npub struct S { pub a: u8 }\n"},
+        "events-only": {"lib.rs": "pub fn f(app: tauri::AppHandle) { app.emit(\"e\", 1).ok(); }\n"},
+        "command-without-types": {"lib.rs": "#[tauri::command]\npub fn c() {}\n"},
+        "hidden-rs": {".rs": cmd1, ".hidden.rs": ""}, "one-candidate-under-dotdir": {".cache/x.rs": cmd1},
+    }
+    dg = 0
+    for tag, files_ in degenerate.items():
+        for st0 in SETTINGS + [dict(ALL_ON, via="conf", field_case="camelCase", no_force=True)]:
+            st = with_entries(st0 or {"via": "flags"}, "cli", "analyze", "lib", "build")
+            add("degenerate-" + tag, files_, ("none", "zod")[dg % 2], settings=st)
+            dg += 1
     # SPELLINGS of the project / output path x top-level file and directory names starting with a non-ASCII
     # character, on the cache-using entry points (CLI with and without --force, twice; BuildSystem)
     spell = ["{abs}", "{abs}/", "{abs}//", "{rel}", "{rel}/", "./{rel}", "./{rel}/", "{rel}//", "{up}", "{up}/", ".//{rel}/./", "{abs}/."]
@@ -665,6 +689,9 @@ CORPUS_SETTINGS = [
      {"via": "conf", "spelling": ["./{rel}/", "{rel}/"], "no_force": True, "entries": ["cli", "build"]}),
     ("regress-escaped-backslash-u", {"lib.rs": G.escape_project(G.ESCAPE_BODIES[1], 1)}, "zod", {"via": "flags", "entries": ["cli", "lib"]}),
     ("regress-escaped-backslash-u", {"lib.rs": G.escape_project(G.ESCAPE_BODIES[0], 0)}, "none", {"via": "flags", "entries": ["cli", "lib"]}),
+    ("regress-empty-tree-verbose", {}, "none", dict(ALL_ON, via="flags", entries=["cli", "analyze", "lib", "build"])),
+    ("regress-only-target-verbose", {"target/debug/gen.rs": "#[tauri::command]\npub fn only(x: u8) -> u8 { x }\n", "notes.txt": "x"}, "zod",
+     dict(ALL_ON, via="conf", entries=["cli", "analyze", "lib", "build"])),
     ("regress-verbose-offset-44", G.offset_sources(80)[44 * 3][2], "none", dict(ALL_ON, via="flags", entries=["cli", "lib"])),
     ("regress-verbose-offset-43", G.offset_sources(80)[43 * 3 + 1][2], "zod", dict(ALL_ON, via="conf", entries=["cli", "lib", "build"])),
 ]
